@@ -93,6 +93,12 @@ Definition published : list sdef := [
   mksdef "Callback" "C" [("context", KPtr); ("func", KFnPtr 2)];
   mksdef "CIterator" "C" [("iter", KPtr); ("func", KFnPtr 2)]
 ].
+(* the object itself, as every header shows it and as the wrappers of the post-processor address it (`self.vtbl`, `self.container`,
+   `container.instance`, `container.context`): the vtable pointer first, then the container {instance, context, temporary storage} *)
+Definition object_layout : list sdef := [
+  mksdef "CGlueTraitObj" "C" [("vtbl", KPtr); ("container", KAdt "CGlueObjContainer")];
+  mksdef "CGlueObjContainer" "C" [("instance", KElem); ("context", KElem); ("ret_tmp", KElem)]
+].
 Definition published_enums : list edef := [
   mkedef "COption" "C" [("None", 0); ("Some", 1)];
   mkedef "CResult" "C" [("Ok", 1); ("Err", 1)]
